@@ -175,7 +175,8 @@ def parse_output(out: str) -> TLCResult:
         res.violated = m.group(1)
     elif re.search(r"Error: Action property (\S+) is violated", out):
         res.violated = re.search(r"Error: Action property (\S+) is violated", out).group(1)
-    elif "Error: Temporal properties were violated" in out:
+    elif "Error: Temporal properties were violated" in out or \
+            re.search(r"Error: Temporal property \S+ was violated", out):
         res.violated = "temporal"
     elif "Error: Deadlock reached" in out:
         res.violated = "deadlock"
